@@ -1459,7 +1459,7 @@ func runCase(run *vh.Run, schema *sqlgen.Schema, idx int, c Case) *obs {
 				rv.Elem().IsNil() && (col.Descriptor.Tags.Contains("string") || col.Descriptor.Tags.Contains("binary")) {
 				// a pointer to a nil named byte slice on a string / binary column: the text-marshaller analogue of
 				// the open finding proto-pointer-to-nil-on-json-column (net.IP(nil) marshals to "", which
-				// unmarshals to nil, i.e. NULL); not compared, counted
+				// unmarshals to nil, i.e. NULL): its own known signature
 				ptrNilNamed = true
 			}
 			if col.Descriptor.Type == bytesType && col.Descriptor.Tags.Contains("json") {
@@ -1530,8 +1530,6 @@ func runCase(run *vh.Run, schema *sqlgen.Schema, idx int, c Case) *obs {
 						t2, e2 := schema.MakeTester(c.Table, fo.back)
 						if e2 != nil {
 							failCap(run, idx, "proto-filter-unusable", e2.Error(), c)
-						} else if ptrNilNamed {
-							run.Hist("excluded:filter-pointer-to-nil-named-byte-slice")
 						} else if typed && !nonUTC {
 							for i, row := range fo.rows {
 								if v2 := t2.Test(row); v2 != fo.verdicts[i] {
@@ -1540,6 +1538,8 @@ func runCase(run *vh.Run, schema *sqlgen.Schema, idx int, c Case) *obs {
 										sig = "proto-pointer-to-zero-on-implicitnull-column"
 									} else if ptrNilJSON {
 										sig = "proto-pointer-to-nil-on-json-column"
+									} else if ptrNilNamed {
+										sig = "proto-pointer-to-nil-on-text-marshalled-column"
 									} else if jsonBytes {
 										sig = "json-tagged-bytes-not-decoded-as-json"
 									}
